@@ -918,9 +918,12 @@ func getSourceFromFile(file string, reader *sourceReader, fns graph.Nodes, start
 			nodeStart = lineno - margin
 		}
 		nodeEnd := lineno + margin
+		// Extend the range at both ends independently: the nodes arrive in no
+		// particular order, and the range must not depend on which comes first.
 		if nodeStart < start {
 			start = nodeStart
-		} else if nodeEnd > end {
+		}
+		if nodeEnd > end {
 			end = nodeEnd
 		}
 		lineNodes[lineno] = append(lineNodes[lineno], n)
